@@ -7,8 +7,9 @@ Extracted (and re-checked by `Sm.C05.translator_tie`, a `decide` theorem):
     (and that the `num` comparison is still commented out);
   * the Jaccard expression `common as f64 / u64::max(1, size) as f64`;
   * the swap-by-size condition of `count_common`;
-  * in minhash.py: the bias-factor expression and the clamp of `contained_by` /
-    `max_containment`, the `num` guard of `jaccard`.
+  * in minhash.py: the statement sequence of `contained_by` / `max_containment` (downsample of both
+    operands, `count_common` BEFORE the empty-sketch early return, bias-factor expression, clamp),
+    of `avg_containment`, and the `num` guard of `jaccard`.
 """
 import re
 
@@ -68,15 +69,20 @@ def x_cmp(report):
         if need not in ab:
             raise Unrecognised("angular_similarity", f"shape `{need}` not found")
     py = read("src/sourmash/minhash.py")
-    bias = "bias_factor = 1.0 - (1.0 - 1.0 / self.scaled) ** total_denom"
+    bias = "bias_factor = 1.0 - (1.0 - 1.0 / self_mh.scaled) ** total_denom"
+    head = ["self_mh, other_mh = self, other", "if downsample and self.scaled != other.scaled:",
+            "scaled = max(self.scaled, other.scaled)", "self_mh = self.downsample(scaled=scaled)",
+            "other_mh = other.downsample(scaled=scaled)", "common = self_mh.count_common(other_mh)"]
+    # shapes must occur IN THIS ORDER (count_common, i.e. the compatibility refusal, before the early return)
     shapes = {
-        "contained_by": ["denom = len(self)", "if not denom: return 0.0", "total_denom = float( denom * self.scaled )", bias,
-                         "containment = self.count_common(other, downsample) / (denom * bias_factor)",
-                         "if containment >= 1: return 1.0 elif containment <= 0: return 0.0 else: return containment"],
-        "max_containment": ["min_denom = min((len(self), len(other)))", "if not min_denom: return 0.0",
-                            "total_denom = float( min_denom * self.scaled )", bias,
-                            "max_containment = self.count_common(other, downsample) / ( min_denom * bias_factor )",
-                            "if max_containment >= 1: return 1.0 elif max_containment <= 0: return 0.0 else: return max_containment"],
+        "contained_by": head + ["denom = len(self_mh)", "if not denom: return 0.0",
+                                "total_denom = float( denom * self_mh.scaled )", bias,
+                                "containment = common / (denom * bias_factor)",
+                                "if containment >= 1: return 1.0 elif containment <= 0: return 0.0 else: return containment"],
+        "max_containment": head + ["min_denom = min((len(self_mh), len(other_mh)))", "if not min_denom: return 0.0",
+                                   "total_denom = float( min_denom * self_mh.scaled )", bias,
+                                   "max_containment = common / (min_denom * bias_factor)",
+                                   "if max_containment >= 1: return 1.0 elif max_containment <= 0: return 0.0 else: return max_containment"],
         "avg_containment": ["c1 = self.contained_by(other, downsample)", "c2 = other.contained_by(self, downsample)",
                             "return (c1 + c2) / 2"],
         "jaccard": ["if self.num != other.num:", "raise TypeError(err)",
@@ -85,9 +91,12 @@ def x_cmp(report):
     for fn, needs in shapes.items():
         b = _method_body(py, fn)
         report["inputs"]["py." + fn] = b
+        pos = 0
         for need in needs:
-            if norm(need) not in b:
-                raise Unrecognised("minhash.py:" + fn, f"shape `{need}` not found in: {b[:300]}")
+            k = b.find(norm(need), pos)
+            if k < 0:
+                raise Unrecognised("minhash.py:" + fn, f"shape `{need}` not found (in order) in: {b[:300]}")
+            pos = k + len(norm(need))
     report["outputs"]["cmp"] = {"compat_fields": fields, "jaccard_floor": floor}
     items = ", ".join(f'("{a}", "{e}")' for a, _, e in fields)
     return f"""
